@@ -482,7 +482,7 @@ var c08CssParseModel = &Model{
 	Gen: func(r *Rng, tier string, emit func(Case)) {
 		kFull, kCore := 3, 4
 		if tier == "thorough" {
-			kFull, kCore = 4, 6
+			kFull, kCore = 4, 5
 		}
 		for _, inline := range []bool{false, true} {
 			il := inline
@@ -759,7 +759,7 @@ func c08CssCheckParse(rep *Report, b []byte, inline bool, bucket string) {
 func c08OracleStreams(r *Rng, tier string, rep *Report) {
 	k := 3
 	if tier == "thorough" {
-		k = 5
+		k = 4
 	}
 	for _, inline := range []bool{false, true} {
 		il := inline
